@@ -3,7 +3,7 @@ thread uses the SAME code objects and therefore the same cache keys), the list o
 that is cleared between executions, and the list of Pony code objects whose lines are scheduling
 points. Everything is looked up by attribute on the imported modules and fails loudly when missing.
 """
-import os, sqlite3
+import os, sqlite3, threading
 from vf import core
 from vf.seams import dbapi
 from vf.props import _c22_sched as sched
@@ -61,6 +61,7 @@ def world():
     w.raw.execute('PRAGMA journal_mode = MEMORY')
     w.raw.execute('insert into Grp (id, name) values (1, "g1"), (2, "g2")')
     w.raw.executemany('insert into Person (id, name, nick, age, score, grp) values (?,?,?,?,?,?)', PEOPLE)
+    threading.stack_size(512 * 1024)          # threads are created per execution: keep them cheap
     w.locks = (sched.SchedLock('pre'), sched.SchedLock('tx'))
     prov = db.provider
     for a in ('pre_transaction_lock', 'transaction_lock'):
@@ -71,9 +72,10 @@ def world():
     _WORLD = w
     return w
 
-def reset(w):
+def reset(w, rows=True):
     """fresh caches + fresh content of the only table that threads write"""
     for c in w.cache_clearers: c()
+    if not rows: return
     w.raw.execute('BEGIN IMMEDIATE')
     w.raw.execute('delete from Scratch')
     w.raw.executemany('insert into Scratch (id, owner, v) values (?,?,?)', SCRATCH)
